@@ -39,7 +39,7 @@ def main():
     if cm.ASAN:
         R.assume("ASan pass: quick bounds; a sanitizer report aborts the forked case and is recorded as a *.fatal violation")
 
-    import c19_index, c19_hist, c19_own, c19_nd, c19_buf
+    import c19_index, c19_hist, c19_own, c19_nd, c19_buf, c19_comp, c19_alias, c19_ro
 
     # ---- 1. indexing ---------------------------------------------------------------------------
     if R.stage("index"):
@@ -48,12 +48,25 @@ def main():
         R.declare(*c19_index.CLASSES)
         ok = cm.fork_map(c19_index.run_item, c19_index.items(names), R, "index.worker.fatal",
                          describe=lambda it: "%s n=%d" % it)
-        msg = "%d classes x lengths 0..5 x {15 int indices, 16x16x8 slices, all 0/1 masks of length n-1,n,n+1} x get/set/ifelse/masked-ref, writable + read-only twin" % len(names)
+        msg = ("%d classes x lengths 0..5 x {15 int indices + 14 of magnitude 2^31..2^64, 16x16x8 slices + 9x9x11 with bounds/steps of magnitude 2^31..2^64, all 0/1 masks of length n-1,n,n+1, "
+               "all masks of length n with non-zero entries {2,-1,INT_MIN,3} and as strided / masked / read-only mask arrays} x get/set/ifelse/masked-ref, writable + read-only twin" % len(names))
         (R.stage_done if ok else R.stage_partial)(msg)
+
+    # ---- 1b. component views of arrays and of masked references ---------------------------------
+    if R.stage("components"):
+        c19_comp.run(R, thorough)
+
+    # ---- 1c. stores / in-place operators whose source aliases the target -------------------------
+    if R.stage("aliasing"):
+        c19_alias.run(R, thorough)
 
     # ---- 2. histories --------------------------------------------------------------------------
     if R.stage("histories"):
         c19_hist.run(R, thorough)
+
+    # ---- 2b. every member x every argument tuple on read-only receivers ---------------------------
+    if R.stage("readonly-members"):
+        c19_ro.run(R, thorough)
 
     # ---- 3. ownership --------------------------------------------------------------------------
     if R.stage("ownership"):
